@@ -53,6 +53,38 @@ def _module_consts(path):
     return env
 
 
+def _check_async_request_order(path):
+    """SFTPClient._async_request must register the request in _expecting BEFORE the packet is sent (and
+    under the lock): the reply may be read by another thread as soon as the request is on the wire, and
+    _read_response drops replies to requests it does not expect (Model/C30.v: async_request adds the number
+    to c_exp in the same step that makes the reply available)."""
+    tree = ast.parse(open(path).read())
+    fn = None
+    for node in ast.walk(tree):
+        if isinstance(node, ast.ClassDef) and node.name == "SFTPClient":
+            for m in node.body:
+                if isinstance(m, ast.FunctionDef) and m.name == "_async_request":
+                    fn = m
+    if fn is None:
+        raise Shape("SFTPClient._async_request not found")
+    regs, sends = [], []
+    for node in ast.walk(fn):
+        if isinstance(node, ast.Assign):
+            for tgt in node.targets:
+                if (isinstance(tgt, ast.Subscript) and isinstance(tgt.value, ast.Attribute)
+                        and tgt.value.attr == "_expecting"):
+                    regs.append(node.lineno)
+        if (isinstance(node, ast.Call) and isinstance(node.func, ast.Attribute)
+                and node.func.attr == "_send_packet"):
+            sends.append(node.lineno)
+    if len(regs) != 1 or len(sends) != 1:
+        raise Shape("_async_request: expected one _expecting[...] assignment and one _send_packet call, found %d / %d"
+                    % (len(regs), len(sends)))
+    if not regs[0] < sends[0]:
+        raise Shape("_async_request registers the request in _expecting (line %d) after sending it (line %d)"
+                    % (regs[0], sends[0]))
+
+
 NAMES = ["CMD_INIT", "CMD_VERSION", "CMD_OPEN", "CMD_CLOSE", "CMD_READ", "CMD_WRITE", "CMD_LSTAT", "CMD_FSTAT",
          "CMD_SETSTAT", "CMD_FSETSTAT", "CMD_OPENDIR", "CMD_READDIR", "CMD_REMOVE", "CMD_MKDIR", "CMD_RMDIR",
          "CMD_REALPATH", "CMD_STAT", "CMD_RENAME", "CMD_READLINK", "CMD_SYMLINK", "CMD_STATUS", "CMD_HANDLE",
@@ -85,6 +117,7 @@ def generate(repo):
     if batch != batch2:
         raise Shape("_get_next_files takes %d entries but advances by %d" % (batch, batch2))
     minblock = int(_one(r"if\s+block_size\s*<\s*(\d+):", sv, "minimum block size in SFTPServer._check_file"))
+    _check_async_request_order(os.path.join(repo, "paramiko", "sftp_client.py"))
     out = ["(* GENERATED by gen/c30.py from paramiko/sftp.py, sftp_file.py, file.py, sftp_client.py - do not edit. *)",
            "From Coq Require Import ZArith List.", "Import ListNotations.", "Open Scope Z_scope."]
     for n in NAMES:
